@@ -73,10 +73,11 @@ Definition item_binds (it : sitem) : list ident :=
   | _ => []
   end.
 (* an expression argument mentions only variables bound by earlier items or by earlier arguments of its clause *)
+Definition arg_svar (a : sarg) : list ident := match a with AT (SVar x) => [x] | _ => [] end.
 Fixpoint scoped_args (B : list ident) (args : list sarg) : bool :=
   match args with
   | [] => true
-  | a :: rest => (match a with AT (SFun _ xs) => isub xs B | _ => true end) && scoped_args (arg_binds a ++ B) rest
+  | a :: rest => (match a with AT (SFun _ xs) => isub xs B | _ => true end) && scoped_args (arg_svar a ++ B) rest
   end.
 Fixpoint scoped (B : list ident) (items : list sitem) : bool :=
   match items with
@@ -89,8 +90,13 @@ Definition clause_pats_ok (args : list sarg) : bool :=
 Definition pats_ok (items : list sitem) : bool :=
   forallb (fun it => match it with IClause _ args _ => clause_pats_ok args | _ => true end) items.
 
+(* `if v == constant` is not a form the macro generates and has no core counterpart here *)
+Definition cond_okb (c : scond) : bool := match c with SIfEq _ (SConst _) => false | _ => true end.
+Definition conds_okb (items : list sitem) : bool :=
+  forallb (fun it => match it with IClause _ _ cs => forallb cond_okb cs | ICond c => cond_okb c | _ => true end) items.
+
 Definition wf_rule (r : srule) : bool :=
-  names_ok r && forallb (fun b => pats_ok b && scoped [] b) (disj_items (sbody r)).
+  names_ok r && forallb (fun b => pats_ok b && scoped [] b && conds_okb b) (disj_items (sbody r)).
 Definition wf_surface (P : list srule) : bool := forallb wf_rule P.
 
 (* ---- translation to Engine/Core.v ---- *)
@@ -167,11 +173,30 @@ Definition interp_ok (I : interp) (fsyms : list nat) : Prop :=
   /\ (forall ts, aint I agg_not_sym ts = match ts with [] => [0%Z] | _ => [] end)
   /\ (forall f vs, In f fsyms -> bint I f vs = Some (fint I f vs)).
 Definition arg_fsyms (a : sarg) : list nat := match a with AT (SFun f _) => [f] | _ => [] end.
+Definition cond_fsyms (c : scond) : list nat := match c with SIfEq _ (SFun f _) => [f] | _ => [] end.
 Fixpoint item_fsyms (it : sitem) : list nat :=
   match it with
-  | IClause _ args _ => flat_map arg_fsyms args
+  | IClause _ args cs => flat_map arg_fsyms args ++ flat_map cond_fsyms cs
+  | ICond c => cond_fsyms c
   | IDisj ds => flat_map (fix go (l : list sitem) : list nat :=
                             match l with [] => [] | it' :: rest => item_fsyms it' ++ go rest end) ds
   | _ => []
   end.
-Definition prog_fsyms (P : list srule) : list nat := flat_map (fun r => flat_map item_fsyms (sbody r)) P.
+Definition items_fsyms (l : list sitem) : list nat := flat_map item_fsyms l.
+Definition prog_fsyms (P : list srule) : list nat := flat_map (fun r => items_fsyms (sbody r)) P.
+
+(* the fragment the translation is defined on (what desugaring leaves) *)
+Definition is_AT (a : sarg) : Prop := match a with AT _ => True | _ => False end.
+Definition cond_ok (c : scond) : Prop := match c with SIfEq _ (SConst _) => False | _ => True end.
+Definition core_frag_item (it : sitem) : Prop :=
+  match it with
+  | IClause _ args cs => Forall is_AT args /\ Forall cond_ok cs
+  | ICond c => cond_ok c
+  | IGen _ _ _ => True
+  | IAgg _ _ _ _ _ => True
+  | INeg _ _ => False
+  | IDisj _ => False
+  end.
+(* function symbols f of conditions `if v.eq(&(f(xs)))` of a rule *)
+Definition rule_eq_fsyms (r : srule) : list nat :=
+  flat_map (fun it => match it with IClause _ _ cs => flat_map cond_fsyms cs | ICond c => cond_fsyms c | _ => [] end) (sbody r).
